@@ -275,7 +275,7 @@ def tlc(module, cfg, workers=None, env=None, timeout=3600, simulate=None, depth=
     """Run TLC on spec/<module>.tla with spec/<cfg>. Raises ToolFailure on tool-level problems."""
     workers = workers or NCPU
     meta = tempfile.mkdtemp(prefix="tlc-", dir=scratch())
-    cmd = ["java", "-XX:+UseParallelGC", "-Xmx" + heap]
+    cmd = ["java", "-XX:+UseParallelGC", "-Xss256m", "-Xmx" + heap]
     if deque:
         cmd += ["-Dtlc2.tool.queue.IStateQueue=StateDeque"]
     cmd += ["-cp", TLC_JAR, "tlc2.TLC", "-workers", str(workers), "-metadir", meta, "-noGenerateSpecTE",
